@@ -19,7 +19,7 @@ type C06Dup struct {
 }
 
 func GenC06Dup() *rapid.Generator[C06Dup] {
-	gg := genGenomeSpec(GenomeCfg{Modules: true, MinGenes: 1, Big: true, ModLinkW: true, LargeNumbers: true})
+	gg := genGenomeSpec(GenomeCfg{Modules: true, MinGenes: 1, Big: true, ModLinkW: true, ModLinkTr: true, LargeNumbers: true})
 	return rapid.Custom(func(t *rapid.T) C06Dup {
 		c := C06Dup{G: gg.Draw(t, "genome"), NewId: rapid.IntRange(0, 1000).Draw(t, "new id"), OnCopy: rapid.Bool().Draw(t, "mutate copy")}
 		if rapid.IntRange(0, 5).Draw(t, "other trait lengths") == 0 {
@@ -133,10 +133,12 @@ func sharedState(a, b *genetics.Genome) error {
 		for _, l := range cg.ControlNode.Incoming {
 			chk(unsafe.Pointer(l), "a module link")
 			chk(unsafe.Pointer(l.InNode), "a module input node")
+			chk(unsafe.Pointer(l.Trait), "a module link's trait")
 		}
 		for _, l := range cg.ControlNode.Outgoing {
 			chk(unsafe.Pointer(l), "a module link")
 			chk(unsafe.Pointer(l.OutNode), "a module output node")
+			chk(unsafe.Pointer(l.Trait), "a module link's trait")
 		}
 		for _, n := range cg.VerifIONodes() {
 			chk(unsafe.Pointer(n), "a node in a module's list of input/output nodes")
@@ -229,6 +231,14 @@ func CheckC06Dup(c C06Dup, rec *Rec) error {
 			break
 		}
 	}
+	for _, m := range c.G.Modules {
+		for _, tr := range m.LinkTr {
+			if tr != 0 {
+				rec.Class("module link that carries a trait")
+				break
+			}
+		}
+	}
 	if disabled > 0 {
 		rec.Class("disabled gene")
 	}
@@ -286,7 +296,7 @@ type C06Spawn struct {
 }
 
 func GenC06Spawn() *rapid.Generator[C06Spawn] {
-	gg := genGenomeSpec(GenomeCfg{Modules: true, MinGenes: 1, Big: true, ModLinkW: true, LargeNumbers: true})
+	gg := genGenomeSpec(GenomeCfg{Modules: true, MinGenes: 1, Big: true, ModLinkW: true, ModLinkTr: true, LargeNumbers: true})
 	og := genOpts(OptsCfg{MaxPop: 12})
 	return rapid.Custom(func(t *rapid.T) C06Spawn {
 		return C06Spawn{G: gg.Draw(t, "genome"), Opts: og.Draw(t, "opts"), Seed: int64(rapid.IntRange(0, 1<<30).Draw(t, "seed"))}
